@@ -482,8 +482,8 @@ Qed.
 Lemma restructure_spec U B X x dt : spec (restructure t X x dt) (K U B) (fun _ s => K U B s) (K U B).
 Proof.
   intros s HK. unfold restructure. destruct (_ && _ && _ && _ && _); [|exact HK].
-  destruct dt as [d|]; [|exact HK]. destruct (n_st X) as [st|]; [|exact HK].
-  destruct (has_struct t d); cbn [negb]; [|exact HK]. cbn [mbind lift].
+  destruct dt as [d|]; [|exact HK]. destruct (has_struct t d); cbn [negb]; [|exact HK].
+  destruct (n_st X) as [st|]; [|exact HK]. cbn [mbind lift].
   match goal with |- context [match ?r with Ok a => _ | Err x0 => (s, Err x0) end] => destruct r as [st'|ex] end;
     [|exact HK].
   now apply (set_st_spec U B x _ s).
